@@ -85,6 +85,25 @@ fn kind_record(k: Kind, key: KeyCode) -> (Vec<u8>, Option<Event>) {
   }
 }
 
+/// read side over raw (type, code, value) records: every event type x a few codes x a few values
+fn check_raw_sequence(seq: &[(u16, u16, i32)]) -> Result<(), (&'static str, String)> {
+  let p = Pipe::new();
+  let mut r = DevInputReader { fd: p.r };
+  let mut bytes = vec![];
+  let mut exp = vec![];
+  for (t, c, v) in seq {
+    bytes.extend(record(*t, *c, *v));
+    if *t == EV_KEY && (*v == 0 || *v == 1) { if let Some(k) = KeyCode::from_u16(*c) { exp.push(if *v == 1 { Event::Pressed(k) } else { Event::Released(k) }); } }
+  }
+  bytes.extend(record(EV_KEY, KeyCode::ESC as i32 as u16, 1)); exp.push(Event::Pressed(KeyCode::ESC));
+  bytes.extend(record(EV_SYN, 0, 0));
+  p.inject(&bytes);
+  for e in &exp {
+    match r.next() { Ok(got) if got == *e => {}, other => return Err(("reader-does-not-skip-foreign-records", format!("records {:?} + sentinel: reader returned {:?} where {:?} was expected", seq, other.map_err(|e| format!("{}", e)), e))) }
+  }
+  match r.next() { Err(nix::Error::Sys(nix::errno::Errno::EAGAIN)) => Ok(()), other => Err(("reader-returns-extra-event", format!("records {:?} + sentinel: after all records the reader returned {:?}", seq, other.map_err(|e| format!("{}", e))))) }
+}
+
 fn check_read_sequence(seq: &[Kind]) -> Result<(), (&'static str, String)> {
   let p = Pipe::new();
   let mut r = DevInputReader { fd: p.r };
@@ -139,6 +158,20 @@ pub fn run(ctx: &Ctx) -> Outcome {
   let mut skipped_kinds = 0u64;
   for (i, r) in r3.into_iter().enumerate() { evals += 1; if seqs[i].iter().any(|k| !matches!(k, Kind::Press | Kind::Release)) { nontrivial += 1; skipped_kinds += 1; } if let Some((c, d)) = r { fails.push((c, d, json!({"read_sequence": seqs[i].iter().map(|k| format!("{:?}", k)).collect::<Vec<_>>()}))); } }
 
+  // (iv) raw records: every event type 0..=0x1f x codes {0,1,2,3,30,0x2ff} x values {-1,0,1,2}; all singles and all ordered pairs (a foreign record followed by a key record and vice versa)
+  let mut raw: Vec<(u16, u16, i32)> = vec![];
+  for t in 0u16..=0x1f { for c in [0u16, 1, 2, 3, 30, 0x2ff] { for v in [-1i32, 0, 1, 2] { raw.push((t, c, v)); } } }
+  let nr = raw.len();
+  let key_recs: Vec<(u16, u16, i32)> = vec![(EV_KEY, 30, 1), (EV_KEY, 30, 0), (EV_KEY, 42, 1)];
+  let total_raw = nr + 2 * nr * key_recs.len() + if q { 0 } else { nr * nr };
+  let r4: Vec<Option<(&'static str, String)>> = par_map(total_raw, ctx.threads, |i| {
+    if i < nr { check_raw_sequence(&[raw[i]]).err() }
+    else if i < nr + nr * key_recs.len() { let j = i - nr; check_raw_sequence(&[raw[j / key_recs.len()], key_recs[j % key_recs.len()]]).err() }
+    else if i < nr + 2 * nr * key_recs.len() { let j = i - nr - nr * key_recs.len(); check_raw_sequence(&[key_recs[j % key_recs.len()], raw[j / key_recs.len()], key_recs[(j + 1) % key_recs.len()]]).err() }
+    else { let j = i - nr - 2 * nr * key_recs.len(); check_raw_sequence(&[raw[j / nr], raw[j % nr], key_recs[0]]).err() }
+  });
+  for (i, r) in r4.into_iter().enumerate() { evals += 1; nontrivial += 1; if let Some((c, d)) = r { fails.push((c, d, json!({"raw_index": i}))); } }
+  o.cov("raw_record_sequences", total_raw as u64);
   o.cov("evaluations", evals);
   o.cov("distinct_nontrivial", nontrivial);
   o.cov("known_key_codes", codes.len() as u64);
@@ -147,7 +180,7 @@ pub fn run(ctx: &Ctx) -> Outcome {
   o.cov("read_sequences", seqs.len() as u64);
   o.cov("read_sequences_with_foreign_records", skipped_kinds);
   o.cov("exhaustive", true);
-  o.cov("rule", format!("(i) every key code KeyCode::from_u16 knows x {{press, release}} as a one-event batch; (ii) every batch of length 0..={} over {} boundary codes x {{press, release}}; (ii-b) long alternating batches of n events for n around every power of two up to 1025; (iii) every sequence of length 0..={} over 9 record kinds (valid press/release, value 2/-1/3, EV_SYN, EV_MSC, EV_KEY with an unknown code, EV_SW) followed by a sentinel press. All inputs are distinct by construction; non-trivial = single-code batches (each a distinct code/value), multi-event or empty batches, and read sequences containing at least one record the reader must skip.", maxlen, boundary.len(), maxseq));
+  o.cov("rule", format!("(i) every key code KeyCode::from_u16 knows x {{press, release}} as a one-event batch; (ii) every batch of length 0..={} over {} boundary codes x {{press, release}}; (ii-b) long alternating batches of n events for n around every power of two up to 1025; (iii) every sequence of length 0..={} over 9 record kinds (valid press/release, value 2/-1/3, EV_SYN, EV_MSC, EV_KEY with an unknown code, EV_SW) followed by a sentinel press; (iv) raw records of every event type 0..=0x1f x 6 codes x 4 values, alone, before and between key records (thorough: all ordered pairs). All inputs are distinct by construction; non-trivial = single-code batches (each a distinct code/value), multi-event or empty batches, and read sequences containing at least one record the reader must skip.", maxlen, boundary.len(), maxseq));
   let sample_bytes = { let p = Pipe::new(); let mut w = DevInputWriter::verif_from_fd(p.w); w.send(&vec![Event::Pressed(KeyCode::A)]).ok(); p.drain().iter().map(|b| format!("{:02x}", b)).collect::<Vec<_>>().join("") };
   let sample_read = format!("{:?}", check_read_sequence(&[Kind::AutoRepeat, Kind::Syn, Kind::Press]));
   o.cov("samples", json!([{"batch": ["Pressed(A)"], "bytes": sample_bytes}, {"read_sequence": ["AutoRepeat", "Syn", "Press"], "check": sample_read}]));
